@@ -315,9 +315,13 @@ def make_mdp(view, ctx=None, dist=None, alias='fresh', explicit_lists=False, sto
                 return UniformDistribution([k for k, p in pairs])
         return DictDistribution(dict(pairs))
 
+    flip = (view.n + len(view.spec['trans'])) % 2 == 1     # half of the models list the outcomes of a distribution in descending id order (absorbing states first)
+
     def next_state_dist(s, a):
         si, ai = sid[s], aid[a]
         cb('next_state_dist', si, ai)
+        if flip and not stored_dists:
+            return build([(sk[t], p) for t, p in reversed(holder['view'].Tall[si, ai])])
         if stored_dists:
             if (si, ai) not in store:
                 store[si, ai] = DictDistribution({sk[t]: p for t, p in holder['view'].Tall[si, ai]})
